@@ -40,7 +40,10 @@
 (***************************************************************************)
 EXTENDS Integers, Sequences, FiniteSets, TLC, Json
 
-CONSTANTS Fam,      \* "sca" | "vec" | "mat" : family of the first object
+CONSTANTS Fam,      \* "sca" | "vec" | "mat" | "avl" : family of the first object
+          Mode,     \* "heap": derivations, then mutations (copies, views, conversions)
+                    \* "iter": iterator protocol - iterators, joint iterators, safe (snapshot) iterators and
+                    \*         their clones may be made at any time, in between Next() calls on any of them
           Pat,      \* "z": initial content with zero cells, zero writes, Reset, no iterators
                     \* "f": all cells non-zero, no zero writes, iterators enabled
           MaxObj,   \* live objects
@@ -56,9 +59,15 @@ vars == <<objs, mem, ph, hist>>
 View == <<objs, mem, ph>>
 
 Cell(v, d) == [v |-> v, d |-> d]
-Obj(k, of, r, c, cells, fl, pt, cls, src, pos, via) ==
+Obj(k, of, r, c, cells, fl, pt, cls, src, pos, via, c2, uses) ==
   [k |-> k, of |-> of, r |-> r, c |-> c, cells |-> cells, fl |-> fl, pt |-> pt,
-   cls |-> cls, src |-> src, pos |-> pos, via |-> via]
+   cls |-> cls, src |-> src, pos |-> pos, via |-> via, c2 |-> c2, uses |-> uses]
+   \* c2   = cells of the second operand of a joint iterator
+   \* uses = the STORAGE reachable from the object, named by the object that allocated it: every
+   \*        copy-class call and every iterator (its cursor) allocates storage of its own (backing
+   \*        arrays, maps, index trees, scratch vectors, derivative slices); views and element
+   \*        references allocate a header of their own and reach what their source reaches.
+   \*        ShareSet(a, b) = uses(a) \cap uses(b) is all that two live objects may have in common.
    \* via = the call that made the object: Clone and As<same type> reach the same heap, but are different
    \* code paths, so they must remain different states of the enumeration
 St(op, s, a, b, c, d, w) == [op |-> op, s |-> s, a |-> a, b |-> b, c |-> c, d |-> d, w |-> w]
@@ -90,7 +99,7 @@ Fresh(M, n)    == [p \in 1..n |-> Len(M) + p]
 
 Content(O, M, x) ==
   [k |-> O[x].k, of |-> O[x].of, r |-> O[x].r, c |-> O[x].c, fl |-> O[x].fl, pt |-> O[x].pt,
-   pos |-> O[x].pos, v |-> Vals(M, O[x].cells), d |-> Ders(M, O[x].cells)]
+   pos |-> O[x].pos, v |-> Vals(M, O[x].cells), d |-> Ders(M, O[x].cells), v2 |-> Vals(M, O[x].c2)]
 AllContent(O, M) == [x \in 1..Len(O) |-> Content(O, M, x)]
 
 (* content of position p after the move = content of position f[p] before *)
@@ -101,11 +110,17 @@ Permuted(M, cs, f) ==
 Rank(M, cs, q) == 1 + Cardinality({x \in 1..Len(cs) : M[cs[x]].v < M[cs[q]].v})
 
 AddCopy(O, M, s, k, r, c, cs, fl, pt, keepd, via) ==
-  [O |-> Append(O, Obj(k, "", r, c, Fresh(M, Len(cs)), fl, pt, "copy", s, 0, via)),
+  [O |-> Append(O, Obj(k, "", r, c, Fresh(M, Len(cs)), fl, pt, "copy", s, 0, via, <<>>, {Len(O) + 1})),
    M |-> M \o [p \in 1..Len(cs) |-> Cell(M[cs[p]].v, IF keepd THEN M[cs[p]].d ELSE 0)],
    res |-> <<>>]
 AddRef(O, M, s, k, of, r, c, cs, pos, via) ==
-  [O |-> Append(O, Obj(k, of, r, c, cs, O[s].fl, O[s].pt, "ref", s, pos, via)), M |-> M, res |-> <<>>]
+  [O |-> Append(O, Obj(k, of, r, c, cs, O[s].fl, O[s].pt, "ref", s, pos, via, <<>>,
+                       {Len(O) + 1} \cup O[s].uses)), M |-> M, res |-> <<>>]
+(* an iterator that owns a snapshot of the tree ("safe"): copy class *)
+AddSnap(O, M, s, cs, pos, via) ==
+  [O |-> Append(O, Obj("i", "t", 1, Len(cs), Fresh(M, Len(cs)), O[s].fl, O[s].pt, "copy", s, pos, via, <<>>, {Len(O) + 1})),
+   M |-> M \o [p \in 1..Len(cs) |-> Cell(M[cs[p]].v, 0)], res |-> <<>>]
+Below(M, cs, key) == Cardinality({p \in 1..Len(cs) : M[cs[p]].v < key})
 Probe(O, M, cs) == [O |-> O, M |-> M, res |-> Vals(M, cs)]
 Wr(O, M2) == [O |-> O, M |-> M2, res |-> <<>>]
 OnCells(M, cs, F(_)) == [x \in 1..Len(M) |-> IF \E p \in 1..Len(cs) : cs[p] = x THEN F(M[x]) ELSE M[x]]
@@ -127,7 +142,26 @@ Effect(O, M, st) ==
     [] op = "T"       -> AddRef(O, M, st.s, "m", "", o.c, o.r, TCells(o), 0, op)
     [] op = "elem"    -> AddRef(O, M, st.s, "s", "", 1, 1, <<CellAt(o, st.a, st.b)>>, 0, op)
     [] op = "iter"    -> AddRef(O, M, st.s, "i", o.k, o.r, o.c, o.cells, 1, op)
-    [] op = "itclone" -> AddRef(O, M, st.s, "i", o.of, o.r, o.c, o.cells, o.pos, op)
+    [] op = "itclone" -> [O |-> Append(O, Obj("i", o.of, o.r, o.c, o.cells, o.fl, o.pt, "ref", st.s, o.pos, op, o.c2,
+                                               {Len(O) + 1} \cup (IF o.cls = "ref" THEN o.uses \ {st.s} ELSE o.uses))),
+                           M |-> M, res |-> <<>>]     \* the cursor is copied, what it walks over is shared
+    [] op = "jiter"   -> [O |-> Append(O, Obj("i", IF o.k = "v" THEN "jv" ELSE "jm", o.r, o.c, o.cells, o.fl, o.pt,
+                                               "ref", st.s, 1, op, O[st.a].cells,
+                                               {Len(O) + 1} \cup o.uses \cup O[st.a].uses)),
+                           M |-> M, res |-> <<>>]
+    (* the ordered integer index: a tree is the ascending sequence of its keys *)
+    [] op = "tclone"   -> AddCopy(O, M, st.s, "t", 1, n, o.cells, o.fl, o.pt, TRUE, op)
+    [] op = "titer"    -> AddRef(O, M, st.s, "i", "t", 1, n, o.cells, 1, op)
+    [] op = "safeiter" -> AddSnap(O, M, st.s, o.cells, 1, op)
+    [] op = "safefrom" -> AddSnap(O, M, st.s, o.cells, 1 + Below(M, o.cells, st.a), op)
+    [] op = "tins"     -> IF \E p \in 1..n : M[o.cells[p]].v = st.w THEN [O |-> O, M |-> M, res |-> <<>>]
+                          ELSE LET k == Below(M, o.cells, st.w) IN
+                               [O |-> [O EXCEPT ![st.s].cells = SubSeq(@, 1, k) \o <<Len(M) + 1>> \o SubSeq(@, k + 1, n),
+                                                ![st.s].c = @ + 1],
+                                M |-> Append(M, Cell(st.w, 0)), res |-> <<>>]
+    [] op = "tdel"     -> [O |-> [O EXCEPT ![st.s].cells = SelectSeq(@, LAMBDA x : M[x].v # st.w),
+                                           ![st.s].c = Len(SelectSeq(o.cells, LAMBDA x : M[x].v # st.w))],
+                           M |-> M, res |-> <<>>]
     (* probes *)
     [] op = "diag"     -> Probe(O, M, DiagCells(o))
     [] op \in {"asvector", "asmatrix"} -> Probe(O, M, o.cells)
@@ -157,10 +191,11 @@ Effect(O, M, st) ==
     [] op = "itnext"  -> [O |-> [O EXCEPT ![st.s].pos = @ + 1], M |-> M, res |-> <<>>]
     [] op = "itset"   -> Wr(O, [M EXCEPT ![o.cells[o.pos]] = Cell(st.w, Zeroed(@.d))])
 
-Derives  == {"clone", "asSame", "asFlip", "asType", "row", "col", "slice", "mslice", "T", "elem", "iter", "itclone"}
+Derives  == {"clone", "asSame", "asFlip", "asType", "row", "col", "slice", "mslice", "T", "elem", "iter", "itclone",
+             "jiter", "tclone", "titer", "safeiter", "safefrom"}
 Probes   == {"diag", "asvector", "asmatrix", "constrow", "constcol"}
 Struct   == {"swap", "reverse", "sort", "swaprows"}
-Mutators == {"set", "assign", "der", "vars", "fill", "reset", "append", "itnext", "itset"} \cup Struct
+Mutators == {"set", "assign", "der", "vars", "fill", "reset", "append", "itnext", "itset", "tins", "tdel"} \cup Struct
 
 (* ---- sharing -------------------------------------------------------------- *)
 CellSet(o) == {o.cells[p] : p \in 1..NC(o)}
@@ -180,6 +215,11 @@ Legal(O, M, st) ==
         \* that are already there is not documented
     [] op = "iter" -> \A p \in 1..n : M[o.cells[p]].v # 0        \* whether iterators visit zeros is unspecified
     [] op = "itnext" -> o.pos <= n /\ \A p \in 1..n : M[o.cells[p]].v # 0
+                        /\ \A q \in 1..Len(o.c2) : M[o.c2[q]].v # 0
+    [] op = "jiter" -> /\ st.a # st.s /\ O[st.a].k = o.k /\ O[st.a].r = o.r /\ O[st.a].c = o.c
+                       /\ \A p \in 1..n : M[o.cells[p]].v # 0 /\ M[O[st.a].cells[p]].v # 0
+    [] op \in {"tins", "tdel"} ->    \* a live (unsafe) iterator under insertions and deletions is C19's subject
+         \A b \in 1..Len(O) : ~(O[b].k = "i" /\ O[b].cls = "ref" /\ Root(O, b) = Root(O, st.s))
     [] op = "itset"  -> o.pos <= n /\ st.w # 0
     [] op = "sort" -> /\ \A p, q \in 1..n : p # q => M[o.cells[p]].v # M[o.cells[q]].v   \* ties
                       /\ \A b \in Others(O, st.s) : O[b].k \notin {"s", "i"}
@@ -194,8 +234,21 @@ Legal(O, M, st) ==
 (* ---- the contract, as properties of the heap ------------------------------ *)
 CopiesDisjoint ==
   \A a, b \in 1..Len(objs) : (a # b /\ Shares(objs, a, b)) => Root(objs, a) = Root(objs, b)
-CopiesEqualAtCreation ==     \* checked on the step that creates the copy, see Next
-  TRUE
+(* the share set: storage two live objects may have in common.  A copy reaches storage of its own  *)
+(* only (so it shares nothing with its source, nor with anything made before it); two iterators      *)
+(* share what they walk over, never a cursor.                                                        *)
+ShareSet(O, a, b) == O[a].uses \cap O[b].uses
+ShareOK ==
+  /\ \A a \in 1..Len(objs) : objs[a].cls \in {"copy", "own"} => objs[a].uses = {a}
+  /\ \A a, b \in 1..Len(objs) : (a # b /\ objs[a].k = "i" /\ objs[b].k = "i") =>
+        \A x \in ShareSet(objs, a, b) : objs[x].k # "i" \/ objs[x].cls = "copy"
+Nth(S, i) == CHOOSE x \in S : Cardinality({y \in S : y < x}) = i - 1
+SortedSeq(S) == [i \in 1..Cardinality(S) |-> Nth(S, i)]
+ShareList(O) ==
+  LET P == {a * 100 + b : a \in 1..Len(O), b \in 1..Len(O)}
+      Q == {e \in P : (e \div 100) < (e % 100)} IN
+  [i \in 1..Cardinality(Q) |-> LET e == Nth(Q, i) IN
+     [a |-> e \div 100, b |-> e % 100, own |-> SortedSeq(ShareSet(O, e \div 100, e % 100))]]
 TypeOK ==
   /\ \A x \in 1..Len(objs) : /\ objs[x].r * objs[x].c = NC(objs[x])
                              /\ \A p \in 1..NC(objs[x]) : objs[x].cells[p] \in 1..Len(mem)
@@ -207,10 +260,12 @@ InitVals ==
   CASE Fam = "sca" -> <<3>>
     [] Fam = "vec" -> IF Pat = "z" THEN <<1, 0, 2>> ELSE <<1, 2, 3>>
     [] Fam = "mat" -> IF Pat = "z" THEN <<1, 0, 2, 0, 3, 4>> ELSE <<1, 2, 3, 4, 5, 6>>
+    [] Fam = "avl" -> <<10, 20, 30>>
 InitObj ==
-  CASE Fam = "sca" -> Obj("s", "", 1, 1, <<1>>, FALSE, FALSE, "own", 0, 0, "make")
-    [] Fam = "vec" -> Obj("v", "", 1, 3, <<1, 2, 3>>, FALSE, FALSE, "own", 0, 0, "make")
-    [] Fam = "mat" -> Obj("m", "", 2, 3, <<1, 2, 3, 4, 5, 6>>, FALSE, FALSE, "own", 0, 0, "make")
+  CASE Fam = "sca" -> Obj("s", "", 1, 1, <<1>>, FALSE, FALSE, "own", 0, 0, "make", <<>>, {1})
+    [] Fam = "vec" -> Obj("v", "", 1, 3, <<1, 2, 3>>, FALSE, FALSE, "own", 0, 0, "make", <<>>, {1})
+    [] Fam = "mat" -> Obj("m", "", 2, 3, <<1, 2, 3, 4, 5, 6>>, FALSE, FALSE, "own", 0, 0, "make", <<>>, {1})
+    [] Fam = "avl" -> Obj("t", "", 1, 3, <<1, 2, 3>>, FALSE, FALSE, "own", 0, 0, "make", <<>>, {1})
 
 DeriveCands(O, M, s) ==
   LET o == O[s]  n == NC(o) IN
@@ -229,6 +284,26 @@ DeriveCands(O, M, s) ==
          \cup {St("elem", s, o.r - 1, 0, 0, 0, 0)}
          \cup (IF Pat = "f" THEN {St("iter", s, 0, 0, 0, 0, 0)} ELSE {})
     [] o.k = "i" -> {St("itclone", s, 0, 0, 0, 0, 0)}
+    [] o.k = "t" -> {St(op, s, 0, 0, 0, 0, 0) : op \in {"tclone", "titer", "safeiter"}}
+                    \cup {St("safefrom", s, key, 0, 0, 0, 0) : key \in {15, 20, 35}}
+
+(* iterator protocol: what may be made in between Next() calls *)
+IterDeriveCands(O, M, s) ==
+  LET o == O[s] IN
+  CASE o.k \in {"v", "m"} ->
+         (IF Len(O) = 1 THEN {St("clone", s, 0, 0, 0, 0, 0)} ELSE {})
+         \cup {St("iter", s, 0, 0, 0, 0, 0)}
+         \cup {St("jiter", s, a, 0, 0, 0, 0) : a \in 1..Len(O)}
+    [] o.k = "t" -> {St(op, s, 0, 0, 0, 0, 0) : op \in {"titer", "safeiter"}}
+                    \cup {St("safefrom", s, key, 0, 0, 0, 0) : key \in {15, 20}}
+    [] o.k = "i" -> {St("itclone", s, 0, 0, 0, 0, 0)}
+    [] OTHER -> {}
+IterMutCands(O, M, s) ==
+  LET o == O[s] IN
+  CASE o.k = "i" -> {St("itnext", s, 0, 0, 0, 0, 0)} \cup
+                    (IF o.pos <= NC(o) /\ o.of # "t" THEN {St("itset", s, 0, 0, 0, 0, NewV(M[o.cells[o.pos]].v))} ELSE {})
+    [] o.k = "t" -> {St("tins", s, 0, 0, 0, 0, 25), St("tdel", s, 0, 0, 0, 0, 20)}
+    [] OTHER -> {}
 
 ProbeCands(O, s) ==
   LET o == O[s] IN
@@ -242,7 +317,8 @@ Positions(o) == {1, NC(o)} \cup (IF NC(o) >= 2 THEN {2} ELSE {})
 MutCands(O, M, s) ==
   LET o == O[s]  n == NC(o) IN
   IF o.k = "i" THEN {St("itnext", s, 0, 0, 0, 0, 0)} \cup
-                    (IF o.pos <= n THEN {St("itset", s, 0, 0, 0, 0, NewV(M[o.cells[o.pos]].v))} ELSE {})
+                    (IF o.pos <= n /\ o.of # "t" THEN {St("itset", s, 0, 0, 0, 0, NewV(M[o.cells[o.pos]].v))} ELSE {})
+  ELSE IF o.k = "t" THEN {St("tins", s, 0, 0, 0, 0, key) : key \in {15, 35}} \cup {St("tdel", s, 0, 0, 0, 0, key) : key \in {10, 20}}
   ELSE
        {St("set", s, p, 0, 0, 0, NewV(M[o.cells[p]].v)) : p \in Positions(o)}
   \cup (IF Pat = "z" THEN {St("set", s, p, 0, 0, 0, 0) : p \in {q \in Positions(o) : M[o.cells[q]].v # 0}} ELSE {})
@@ -262,7 +338,7 @@ WellFormed(O, st) ==      \* drop the place-holder candidates
 (* frame: what a call may change *)
 FrameOK(O, M, st, ef) ==
   /\ \A b \in 1..Len(O) :
-       \/ (st.op \in Mutators /\ Root(O, b) = Root(O, st.s))
+       \/ (st.op \in Mutators /\ ShareSet(O, b, st.s) # {})     \* only what reaches common storage may see it
        \/ Content(ef.O, ef.M, b) = Content(O, M, b)
   /\ (st.op \in Derives /\ ef.O[Len(ef.O)].cls = "copy" /\ st.op \notin {"asType", "row", "col"}) =>
        /\ Vals(ef.M, ef.O[Len(ef.O)].cells) = Vals(M, O[st.s].cells)
@@ -278,14 +354,15 @@ Take(st, pre2, nm2) ==
        /\ hist' = Append(hist, st)
        /\ (Emit => PrintT(ToJson([fam |-> Fam, pat |-> Pat, init |-> InitVals, steps |-> hist',
                                   prev |-> AllContent(objs, mem),
-                                  exp |-> AllContent(ef.O, ef.M), res |-> ef.res])))
+                                  exp |-> AllContent(ef.O, ef.M), res |-> ef.res,
+                                  share |-> ShareList(ef.O)])))
 
 Init == /\ objs = <<InitObj>>
         /\ mem = [p \in 1..Len(InitVals) |-> Cell(InitVals[p], 0)]
         /\ ph = [pre |-> 0, nm |-> 0]
         /\ hist = <<St("make", 0, InitObj.r, InitObj.c, 0, 0, 0)>>
 
-PreMutate == /\ Len(objs) = 1 /\ ph.pre = 0 /\ ph.nm = 0
+PreMutate == /\ Len(objs) = 1 /\ ph.pre = 0 /\ ph.nm = 0 /\ Fam # "avl"
              /\ \E st \in {St("der", 1, 1, 0, 0, 0, 1)} \cup
                           (IF Fam # "sca" THEN {St("vars", 1, 0, 0, 0, 0, 0)} ELSE {}) :
                    Take(st, 1, 0)
@@ -296,6 +373,12 @@ Mutate == /\ Len(objs) >= 2 /\ ph.nm < MaxMut
 Observe == /\ Len(objs) >= 2 /\ ph.nm = 0
            /\ \E s \in 1..Len(objs) : \E st \in ProbeCands(objs, s) : Take(st, ph.pre, ph.nm)
 
-Next == PreMutate \/ Derive \/ Mutate \/ Observe
+IterDerive == /\ Len(objs) < MaxObj
+              /\ \E s \in 1..Len(objs) : \E st \in IterDeriveCands(objs, mem, s) : Take(st, ph.pre, ph.nm)
+IterMutate == /\ Len(objs) >= 2 /\ ph.nm < MaxMut
+              /\ \E s \in 1..Len(objs) : \E st \in IterMutCands(objs, mem, s) : Take(st, ph.pre, ph.nm + 1)
+
+Next == IF Mode = "iter" THEN IterDerive \/ IterMutate
+        ELSE PreMutate \/ Derive \/ Mutate \/ Observe
 Spec == Init /\ [][Next]_vars
 =============================================================================
